@@ -190,8 +190,15 @@ func cmdCheck(args []string) int {
 		for k, n := range r.Abstracted {
 			abstracted[k] += n
 		}
-		for _, v := range r.Vacuous {
-			vacuous = append(vacuous, r.Key+": "+v)
+		anyFailed := false
+		for _, o := range r.Obls {
+			if o.Status != "unsat" {
+				anyFailed = true
+			}
+		}
+		if !anyFailed && len(r.Vacuous) > 0 {
+			// (after a failed obligation has been assumed, unreachability of what follows is expected)
+			vacuous = append(vacuous, r.Key+": "+r.Vacuous[0])
 		}
 		for _, f := range r.Fatal {
 			engineErrs = append(engineErrs, r.Key+": "+f)
